@@ -757,3 +757,140 @@ def replay_C09(ctx, path):
         return 1
     print('the recorded case no longer fails on the current tree')
     return 0
+
+
+# ----------------------------------------------------------------------------------------
+# pool: C19
+# ----------------------------------------------------------------------------------------
+C19_NOTE = ('PARTIAL: data races, memory ordering, Mutex and `unsafe impl Send` soundness are trusted (the model cannot exhibit them); '
+            'real-thread runs are checked by monitors (exclusivity, survival of blocks across hand-overs, arenas created <= peak of live guards, release ledger), not replayed on the model')
+
+
+def run_pool(ctx, runs, steps, mt_runs, seeds, extra=None):
+    res = {'summary': {'runs': 0, 'steps': 0, 'mismatches': 0, 'impl_monitor_failures': 0, 'nontrivial': 0, 'mt_runs': 0, 'mt_blocks': 0, 'ops': {}},
+           'implx': [], 'mism': [], 'samples': [], 'crashes': []}
+    for release in (False, True):
+        exe = ctx.cargo_build('poolx', release=release)
+        if exe is None:
+            return None
+        b = 'release' if release else 'debug'
+        for sd in seeds:
+            trace = os.path.join(CACHE, 'poolx_%s_%d.txt' % (b, sd))
+            cmd = ('%s %s > %s' % (exe, extra, trace)) if extra else ('%s --seed %d --runs %d --steps %d --mt-runs %d > %s' % (exe, sd, runs, steps, mt_runs, trace))
+            rc, out, dt = sh(cmd, timeout=1800)
+            if rc != 0:
+                res['crashes'].append((b, rc, out[-300:]))
+            rc2, out2, _ = sh('%s pool < %s' % (DRV, trace), timeout=1800)
+            if rc2 != 0:
+                ctx.problems.append(('driver', 'drv pool failed: ' + out2[-400:]))
+                continue
+            # every X line belongs to the run (RUN ... / M ...) whose header precedes it
+            last_hdr = None
+            with open(trace) as f:
+                for l in f:
+                    l = l.rstrip('\n')
+                    if l.startswith('RUN ') or l.startswith('M '):
+                        last_hdr = l
+                        if len(res['samples']) < 2:
+                            res['samples'].append(l)
+                    elif l.startswith('P ') and len(res['samples']) < 10:
+                        res['samples'].append(l)
+                    elif l.startswith('X '):
+                        res['implx'].append((b, last_hdr, l))
+            for l in out2.split('\n'):
+                if l.startswith('MISMATCH'):
+                    res['mism'].append((b, l))
+                elif l.startswith('SUMMARY'):
+                    s = json.loads(l[len('SUMMARY '):])
+                    S = res['summary']
+                    for k, v in s.items():
+                        if isinstance(v, dict):
+                            for kk, vv in v.items():
+                                S[k][kk] = S[k].get(kk, 0) + vv
+                        else:
+                            S[k] = S.get(k, 0) + v
+            os.remove(trace)
+    return res
+
+
+def pool_verdict(ctx, res, steps):
+    for (b, rc, err) in res['crashes']:
+        ctx.violations.append({'kind': 'pool-run', 'build': b, 'what_fails': 'the pool harness crashed (exit status %d)' % rc, 'stderr': err, 'signature': 'pool:crash'})
+    for (b, hdr, xl) in res['implx']:
+        msg = xl.split('::', 1)[1].strip() if '::' in xl else xl
+        v = {'kind': 'pool-run', 'build': b, 'run': hdr, 'what_fails': xl, 'steps': steps,
+             'signature': 'pool:%s' % re.sub(r'[0-9]+', 'N', msg)[:80], 'how_to_replay': 'tools/vcheck C19 --replay <this file>'}
+        ctx.violations.append(v)
+    rel = res['mism']
+    if rel and not ctx.violations:
+        b, l = rel[0]
+        ctx.problems.append(('tie', 'pool model and implementation disagree on %d step(s); first: %s' % (len(rel), l[:600])))
+    return rel
+
+
+def check_C19(ctx):
+    target = 'Properties/C19'
+    ctx.regen()
+    ok, out = ctx.coq_build(target)
+    nthm, nclosed = (0, 0)
+    if ok:
+        nthm, nclosed = ctx.check_assumptions(target, out)
+    else:
+        nthm = len(ctx.pinned(target)[0])
+    ctx.grep_forbidden()
+    if ctx.tier == 'thorough' and ok:
+        ctx.coqchk(target)
+    if ctx.build_driver():
+        runs, steps, mt = (600, 40, 24) if ctx.tier == 'quick' else (20000, 80, 400)
+        seeds = [ctx.seed] if ctx.tier == 'quick' else [ctx.seed, ctx.seed + 1000003]
+        res = run_pool(ctx, runs, steps, mt, seeds)
+        if res is not None:
+            rel = pool_verdict(ctx, res, steps)
+            if (rel or ctx.problems) and not ctx.violations:
+                ctx.say('proof or tie broken: searching for a concrete failing schedule')
+                ctx.problems = [p for p in ctx.problems if p[0] != 'tie']
+                res2 = run_pool(ctx, 6000, 60, 100, [ctx.seed + 7, ctx.seed + 77])
+                if res2 is not None:
+                    rel2 = pool_verdict(ctx, res2, 60)
+                    if (rel or rel2) and not ctx.violations and not any(p[0] == 'tie' for p in ctx.problems):
+                        ctx.problems.append(('tie', 'pool model and implementation disagree; first: %s' % ((rel or rel2)[0][1][:600])))
+            S = res['summary']
+            ctx.cov.update({
+                'evaluations': S['steps'],
+                'distinct_nontrivial': S['nontrivial'],
+                'rule': 'deterministic schedules: one OS thread plays any number of guard holders on a real BumpPool (get / try_get / get_with_size / try_get_with_size / try_get_with_capacity; gets whose arena creation panics while the pool lock is held (capacity overflow: poisons the mutex), reports an error, or is refused by the base allocator; guard drop; mem::forget of a guard; allocations of patterned blocks through any live guard; between rounds pool.reset / reset_to_start; finally drop of the pool), every action replayed on the extracted Coq model with exact comparison of WHICH arena is handed out (identity of its base allocator value), fresh or reused, failures, the idle stack at quiescent points; plus runs with 2..8 real threads (300 iterations each) checked by monitors: no two live guards on one arena, every block ever allocated intact after all hand-overs, arenas created <= peak number of live guards, reset rewinds every arena, release ledger of the base allocator. evaluations = deterministic steps; non-trivial = steps that created an arena or failed',
+                'samples': res['samples'],
+                'traces_validated_against_impl': S['steps'],
+                'input_distribution': {'runs': S['runs'], 'ops': S['ops'], 'thread_runs': S['mt_runs'], 'blocks_checked_after_thread_runs': S['mt_blocks']},
+                'mismatches': {'model_vs_impl_steps': S['mismatches'], 'impl_monitor_failures': S['impl_monitor_failures']},
+                'partial_note': C19_NOTE,
+            })
+    return ctx.finish(level='proof', obligations=nthm, discharged=nclosed,
+                      checker_cmd='make -C coq Properties/C19.vo (coqc 8.16.1; Print Assumptions under each theorem)' + ('; coqchk -o' if ctx.tier == 'thorough' else ''),
+                      extra_assumptions=['hand-written model (coq/Pool.v) of bump_pool.rs tied to the code by the correspondence check; ' + C19_NOTE,
+                                         'each pooled arena behaves as a single Bump (C01-C03); std::sync::Mutex provides mutual exclusion'])
+
+
+def replay_C19(ctx, path):
+    r = json.load(open(path))
+    if r.get('kind') != 'pool-run' or not r.get('run'):
+        print(json.dumps(r, indent=1)[:3000])
+        return check_C19(ctx)
+    if not ctx.build_driver():
+        return 1
+    f = r['run'].split()
+    if f[0] == 'RUN':
+        extra = '--only-run-seed %s --steps %d' % (f[2], r.get('steps', 40))
+    else:
+        th = [x for x in f if x.startswith('threads=')]
+        extra = '--only-mt-seed %s --threads %s' % (f[2], th[0].split('=')[1] if th else '4')
+    res = run_pool(ctx, 0, 0, 0, [0], extra=extra)
+    pool_verdict(ctx, res, r.get('steps', 40))
+    for v in ctx.violations[:3]:
+        print('reproduced:', v.get('what_fails'))
+    if ctx.violations or ctx.problems:
+        p = ctx.write_replay('violation', r)
+        print('VIOLATION property=C19 replay=%s' % p)
+        return 1
+    print('the recorded schedule no longer fails on the current tree')
+    return 0
